@@ -833,7 +833,9 @@ fn vval_text(v: &VVal) -> String {
         VVal::Flag => String::new(),
         VVal::Missing => ".".to_string(),
         VVal::Char(c) => c.to_string(),
-        VVal::Str(s) | VVal::Geno(s) => s.clone(),
+        // a string VALUE is written percent-encoded in VCF text
+        VVal::Str(s) => s.replace('%', "%25").replace(';', "%3B").replace('=', "%3D").replace(',', "%2C"),
+        VVal::Geno(s) => s.clone(),
         VVal::AInt(xs) => arr(xs, |n| n.to_string()),
         VVal::AFloat(xs) => arr(xs, |b| ftext(*b).to_string()),
         VVal::AChar(xs) => arr(xs, |c| c.to_string()),
@@ -902,7 +904,8 @@ fn gen_vrec(rng: &mut Rng, serial: usize, nsamples: usize) -> VRec {
             "DP" => VVal::Int(pick_i(rng)),
             "AF" if nalt >= 1 => VVal::AFloat((0..nalt).map(|i| if i > 0 && rng.chance(1, 6) { None } else { Some(pick_f(rng)) }).collect()),
             "DB" => VVal::Flag,
-            "AA" => VVal::Str(rng.pick(&["A", "ancestral", "x_y", "a b"]).to_string()),
+            // values holding `%`: written `50%2541`, `GC%25CDS`, …; `50%41` must not come back as `50A`
+            "AA" => VVal::Str(rng.pick(&["A", "ancestral", "x_y", "a b", "50%41", "GC%CDS", "100%", "a;b=c"]).to_string()),
             "AC" if nalt >= 1 => VVal::AInt((0..nalt).map(|i| if i > 0 && rng.chance(1, 6) { None } else { Some(pick_i(rng)) }).collect()),
             "XS" => {
                 let n = 1 + rng.below(3) as usize;
@@ -1507,7 +1510,87 @@ fn check_bgzf_law(ctx: &mut Ctx, stream: &[u8], payload: &[u8], k: usize, n: usi
     }
 }
 
+/// A tolerant pipe: the caller goes on after the writer rejected a record. Whatever the writer
+/// ACCEPTED must read back as those records — a rejected record must leave nothing behind (no partial
+/// line, no stale bytes in a scratch buffer).
+fn tolerant_pipe(ctx: &mut Ctx, doc: &ADoc, case: &str, rng: &mut Rng) {
+    if doc.recs.is_empty() || doc.recs.len() > 20 {
+        return;
+    }
+    let header = a_header(doc.hkind);
+    // a record every writer rejects part-way: four bases, three quality scores
+    let bad = ARec { name: Some(b"bad".to_vec()), flags: 4, seq: b"ACGT".to_vec(), qual: vec![30, 30, 30], ..Default::default() };
+    let at = rng.below(doc.recs.len() as u64 + 1) as usize;
+    let twice = rng.chance(1, 3);
+    let mut recs: Vec<(ARec, bool)> = doc.recs.iter().cloned().map(|r| (r, false)).collect();
+    recs.insert(at, (bad.clone(), true));
+    if twice {
+        recs.insert(at, (bad, true));
+    }
+    for (f, c) in A_KINDS {
+        if f == AFmt::Cram {
+            continue;
+        }
+        let tag = format!("{}.{}", afmt_s(f), c.s());
+        ctx.eval(Some(fnv(format!("{case} pipe {tag}").as_bytes())));
+        let res = guarded(|| -> std::io::Result<(Vec<u8>, Vec<bool>)> {
+            let mut out = Vec::new();
+            let mut accepted = vec![];
+            {
+                let mut w = alignment::io::writer::Builder::default().set_reference_sequence_repository(repository()).set_format(f).set_compression_method(acm(c)).build_from_writer(&mut out)?;
+                w.write_header(&header)?;
+                for (r, _) in &recs {
+                    accepted.push(w.write_record(&header, &to_record_buf(r)).is_ok());
+                }
+                w.finish(&header)?;
+            }
+            Ok((out, accepted))
+        });
+        let (stream, accepted) = match res {
+            Ok(Ok(x)) => x,
+            Ok(Err(_)) => {
+                ctx.bump(&format!("pipe_write_failed_{tag}"));
+                continue;
+            }
+            Err(p) => {
+                ctx.fail("panic", format!("{tag} writer panicked in a tolerant pipe: {p}"), case.into());
+                continue;
+            }
+        };
+        if recs.iter().zip(&accepted).any(|((_, is_bad), ok)| *is_bad && *ok) {
+            ctx.bump(&format!("pipe_bad_record_accepted_{tag}"));
+            continue; // the writer accepts the record: nothing to test here
+        }
+        let expect: Vec<String> = recs.iter().zip(&accepted).filter(|(_, ok)| **ok).map(|((r, _), _)| show_arec(&a_nf(f, r))).collect();
+        let got = guarded(|| -> std::io::Result<Vec<String>> {
+            let mut r = a_builder(Some(f), Some(c)).build_from_reader(&stream[..])?;
+            let h = r.read_header()?;
+            let mut out = vec![];
+            for x in r.records(&h) {
+                let x = x?;
+                out.push(show_arec(&render_a(&h, x.as_ref())?));
+            }
+            Ok(out)
+        });
+        match got {
+            Ok(Ok(g)) if g == expect => ctx.bump("pipe_ok"),
+            other => ctx.fail(
+                "tolerant-pipe",
+                format!(
+                    "{tag}: {} record(s) written, {} rejected by the writer (a record with 4 bases and 3 quality scores, at position {at}); the {} accepted record(s) read back as {}",
+                    recs.len(),
+                    accepted.iter().filter(|a| !**a).count(),
+                    expect.len(),
+                    match other { Ok(Ok(g)) => format!("{} record(s), first difference at {:?}", g.len(), g.iter().zip(&expect).position(|(a, b)| a != b)), Ok(Err(e)) => format!("error {e}"), Err(p) => format!("panic {p}") }
+                ),
+                case.into(),
+            ),
+        }
+    }
+}
+
 fn adoc_case(ctx: &mut Ctx, doc: &ADoc, case: &str, rng: &mut Rng, cram: bool, full_pairs: bool) {
+    tolerant_pipe(ctx, doc, case, rng);
     let header = a_header(doc.hkind);
     let bufs: Vec<RecordBuf> = doc.recs.iter().map(to_record_buf).collect();
     let hsum = a_header_summary(&header);
